@@ -496,9 +496,111 @@ def py_local_renaming(text: str, r) -> tuple[list[str], dict] | None:
     return lines, mapping
 
 
+# ------------------------------------------------------------------ renaming of TypeScript / JavaScript / Rust locals
+TS_FUNCS = {"function_declaration", "function_expression", "arrow_function", "method_definition", "generator_function",
+            "generator_function_declaration", "function_signature"}
+RS_FUNCS = {"function_item", "closure_expression"}
+TS_KEYWORDS = {"break", "case", "catch", "class", "const", "continue", "debugger", "default", "delete", "do", "else", "enum", "export",
+               "extends", "false", "finally", "for", "function", "if", "import", "in", "instanceof", "new", "null", "return", "super",
+               "switch", "this", "throw", "true", "try", "typeof", "var", "void", "while", "with", "let", "static", "yield", "await",
+               "async", "of", "type", "interface", "as", "is", "any", "get", "set", "undefined", "NaN", "Infinity", "arguments", "eval"}
+RS_KEYWORDS = {"as", "break", "const", "continue", "crate", "else", "enum", "extern", "false", "fn", "for", "if", "impl", "in", "let", "loop",
+               "match", "mod", "move", "mut", "pub", "ref", "return", "self", "Self", "static", "struct", "super", "trait", "true", "type",
+               "unsafe", "use", "where", "while", "async", "await", "dyn", "abstract", "become", "box", "do", "final", "macro",
+               "override", "priv", "typeof", "unsized", "virtual", "yield", "try", "union"}
+
+
+def ts_local_renaming(lang: str, text: str, r):
+    """rename variables declared with const / let / var (TS, JS) or `let` (Rust) inside functions - every occurrence of the name
+    lies inside a function that declares it, the name is no parameter, no module-level binding, no shorthand property / field -
+    to fresh identifiers of the SAME length and letter-case pattern; returns (new lines, mapping) or None.  Property names,
+    types, labels and text inside strings are never touched (they are other node types)."""
+    data = text.encode("utf-8")
+    tree = _ts_parser(lang).parse(data)
+    funcs = RS_FUNCS if lang == "rs" else TS_FUNCS
+    ident_types = {"identifier"}
+    occ, declared_in, banned, all_words = {}, {}, set(), set(re.findall(r"[A-Za-z_$][A-Za-z_0-9$]*", text))
+    stack = [(tree.root_node, ())]
+    while stack:
+        n, fstack = stack.pop()
+        if n.type == "ERROR" or n.is_missing:
+            return None
+        if n.type in funcs:
+            fstack = fstack + (n.id,)
+        t = n.type
+        if t in ident_types and n.child_count == 0:
+            name = n.text.decode("utf-8")
+            occ.setdefault(name, []).append((n.start_byte, n.end_byte, fstack))
+            par = n.parent
+            pt = par.type if par is not None else ""
+            if lang == "rs":
+                if pt == "let_declaration" and par.child_by_field_name("pattern") is not None and par.child_by_field_name("pattern").id == n.id:
+                    if fstack:
+                        declared_in.setdefault(name, set()).add(fstack[-1])
+                    else:
+                        banned.add(name)
+                elif pt in ("parameter", "self_parameter", "closure_parameters", "shorthand_field_initializer", "macro_invocation",
+                            "scoped_identifier", "use_declaration", "function_item", "static_item", "const_item", "mod_item",
+                            "field_pattern", "tuple_struct_pattern", "struct_pattern", "generic_function", "attribute", "label",
+                            "mut_pattern", "reference_pattern", "tuple_pattern", "captured_pattern", "or_pattern", "for_expression",
+                            "match_pattern", "scoped_use_list", "use_list", "use_as_clause", "enum_variant"):
+                    banned.add(name)
+            else:
+                if pt == "variable_declarator" and par.child_by_field_name("name") is not None and par.child_by_field_name("name").id == n.id:
+                    if fstack:
+                        declared_in.setdefault(name, set()).add(fstack[-1])
+                    else:
+                        banned.add(name)
+                elif pt in ("required_parameter", "optional_parameter", "formal_parameters", "function_declaration", "class_declaration",
+                            "import_specifier", "import_clause", "namespace_import", "export_specifier", "catch_clause", "labeled_statement",
+                            "break_statement", "continue_statement", "function_expression", "generator_function_declaration",
+                            "arrow_function", "rest_pattern", "object_pattern", "array_pattern", "pair_pattern", "assignment_pattern",
+                            "for_in_statement", "enum_declaration", "type_alias_declaration", "interface_declaration", "method_definition",
+                            "namespace_export", "internal_module", "module", "abstract_class_declaration", "object_assignment_pattern"):
+                    banned.add(name)
+        elif t in ("shorthand_property_identifier", "shorthand_property_identifier_pattern", "shorthand_field_identifier") and n.child_count == 0:
+            banned.add(n.text.decode("utf-8"))
+        for c in n.children:
+            stack.append((c, fstack))
+    kw = RS_KEYWORDS if lang == "rs" else TS_KEYWORDS
+    cands = []
+    for name, fs in declared_in.items():
+        if name in banned or name in kw or len(name) < 1 or name.startswith("$"):
+            continue
+        if lang == "rs" and (("{" + name) in text):
+            continue
+        if all(any(f in fstack for f in fs) for _, _, fstack in occ.get(name, [])):
+            cands.append(name)
+    cands.sort()
+    if not cands:
+        return None
+    chosen = [c for c in cands if r.random() < 0.7] or cands[:1]
+    mapping, used = {}, set(all_words)
+    lower, upper = "abcdefghijklmnopqrstuvwxyz", "ABCDEFGHIJKLMNOPQRSTUVWXYZ"
+    for c in chosen:
+        for _ in range(200):
+            new = "".join(r.choice(lower) if ch.islower() else r.choice(upper) if ch.isupper() else ch for ch in c)
+            if new not in used and new not in kw and not new[0].isdigit():
+                mapping[c] = new
+                used.add(new)
+                break
+    if not mapping:
+        return None
+    edits = [(a, b, mapping[name].encode("utf-8")) for name in mapping for a, b, _ in occ[name]]
+    out = bytearray(data)
+    for a, b, new in sorted(edits, reverse=True):
+        out[a:b] = new
+    new_text = out.decode("utf-8")
+    inv = {v: k for k, v in mapping.items()}
+    if shape(lang, new_text, inv) != shape(lang, text):
+        return None
+    return new_text.split("\n"), mapping
+
+
 # ------------------------------------------------------------------ the program is unchanged (oracle cross-check)
-def shape(lang: str, text: str):
-    """statement-level fingerprint of the parse, positions dropped: equal before and after a meaning-preserving edit"""
+def shape(lang: str, text: str, unmap: dict | None = None):
+    """statement-level fingerprint of the parse, positions dropped: equal before and after a meaning-preserving edit
+    (unmap: renamed identifier -> original, applied to identifier leaves)"""
     if text.startswith(BOM):
         text = text[1:]
     if lang == "py":
@@ -513,7 +615,10 @@ def shape(lang: str, text: str):
         if n.type in ("comment", "line_comment", "block_comment"):
             return
         if n.child_count == 0:
-            out.append((n.type, n.text))
+            if unmap and n.type == "identifier" and n.text.decode("utf-8", "replace") in unmap:
+                out.append((n.type, unmap[n.text.decode("utf-8")].encode("utf-8")))
+            else:
+                out.append((n.type, n.text))
             return
         if n.type in MULTI_TYPES:
             out.append((n.type, n.text))
@@ -584,9 +689,9 @@ def make_plan(r, info: Info, kinds: list[str], below_header: bool, n_ops: int, t
                 continue
             plan.ops.append(["append", appendix(lang, tag)])
         elif kind == "rename_locals":
-            if lang != "py" or "rename_locals" in have:
+            if "rename_locals" in have:
                 continue
-            res = py_local_renaming(info.text, r)
+            res = py_local_renaming(info.text, r) if lang == "py" else ts_local_renaming(lang, info.text, r)
             if res is None:
                 continue
             new_lines, mapping = res
